@@ -9,6 +9,7 @@ import (
 	"io"
 	"runtime"
 	"testing"
+	"time"
 
 	"github.com/theparanoids/ysshra/agent/yubiagent"
 	"github.com/theparanoids/ysshra/zzverif/vh"
@@ -100,6 +101,12 @@ func variantCert(key string, v int) *ssh.Certificate {
 		a.Prins, a.PrinsNil = nil, true
 	case 10:
 		spec.ValidBefore = 1000 // expired long ago
+	case 16:
+		spec.ValidAfter = uint64(time.Now().Unix()) + 3600 // not valid yet (a CA whose clock runs ahead)
+	case 17:
+		spec.ValidAfter, spec.ValidBefore = uint64(time.Now().Unix())+90, uint64(time.Now().Unix())+7200
+	case 18:
+		spec.ValidAfter, spec.ValidBefore = 1<<63+5, ssh.CertTimeInfinity // a window that starts beyond the signed range
 	case 11:
 		spec.Host = true
 	}
@@ -123,7 +130,7 @@ func genBlob(t *rapid.T, label string, damaged bool) []byte {
 	// the key the real server's underlying agent holds is drawn as often as all the others together
 	k := rapid.SampledFrom(append(append([]string{}, vh.SSHKeyNames...), "ed25519c", "ed25519c", "ed25519c", "ed25519c", "ed25519c", "ed25519c")).Draw(t, label+"Key")
 	if !damaged && rapid.IntRange(0, 2).Draw(t, label+"Variant") == 1 {
-		return variantCert(k, rapid.IntRange(0, 15).Draw(t, label+"VariantKind")).Marshal()
+		return variantCert(k, rapid.IntRange(0, 18).Draw(t, label+"VariantKind")).Marshal()
 	}
 	kind := rapid.IntRange(3, 5).Draw(t, label+"Kind")
 	if damaged {
@@ -623,7 +630,7 @@ func codeOf(b []byte) any {
 	return b[0]
 }
 
-const rule = "byte streams for ServeAgent over an in-memory connection: 0..8 frames from a grammar, a fifth of the later frames a verbatim repeat of an earlier one (add-hardware-certificate in the new and the legacy encoding with real, bit-flipped and truncated key / certificate blobs - the certificates with the usual KeyID or with 16 variants (touch policy 4 / 7 / -1 / 2^40, large usage, other flag sets, version 2, null principals, free text, empty, a trailer, expired, host certificate, critical option) -, junk; list slots; read / attest slot with slot names; wait with any code; the nine standard requests well-formed (built by the library client), truncated, with a lifetime constraint cut short, and with an inner length field overwritten by a boundary value (2^32-1..2^32-5, 2^31, 2^31-1, 2^24, the right value +-1, 0); unknown codes and extension with random bodies; frames of length 0, 1 and 2 with any code), followed by a clean end, a truncated length prefix, a truncated body or a declared length in {16 MiB+1, 2^30, 2^31, 2^32-1}; the served agent is a total recording agent that succeeds or fails every call with a text or with exactly io.EOF / io.ErrUnexpectedEOF. Oracle: the harness parses the stream itself; a well-formed frame gets exactly one response of the right kind (SUCCESS / error text, marshalled slot replies, standard reply code, byte-identical forwarded reply) with the arguments recorded by the served agent; a malformed frame is answered or ends the connection with a non-nil error; responses in request order; nothing after the end; clean end => nil; nil => as many responses as complete frames; truncated length prefix or truncated body (including a stream that ends right after a length prefix) => error; oversize => error and < 8 MiB allocated. Non-trivial: >= 2 frames mixing well-formed and malformed, or a non-clean tail after >= 1 frame."
+const rule = "byte streams for ServeAgent over an in-memory connection: 0..8 frames from a grammar, a fifth of the later frames a verbatim repeat of an earlier one (add-hardware-certificate in the new and the legacy encoding with real, bit-flipped and truncated key / certificate blobs - the certificates with the usual KeyID or with 19 variants (touch policy 4 / 7 / -1 / 2^40, large usage, other flag sets, version 2, null principals, free text, empty, a trailer, expired, not yet valid - in an hour, in 90 s, beyond the signed range -, host certificate, critical option) -, junk; list slots; read / attest slot with slot names; wait with any code; the nine standard requests well-formed (built by the library client), truncated, with a lifetime constraint cut short, and with an inner length field overwritten by a boundary value (2^32-1..2^32-5, 2^31, 2^31-1, 2^24, the right value +-1, 0); unknown codes and extension with random bodies; frames of length 0, 1 and 2 with any code), followed by a clean end, a truncated length prefix, a truncated body or a declared length in {16 MiB+1, 2^30, 2^31, 2^32-1}; the served agent is a total recording agent that succeeds or fails every call with a text or with exactly io.EOF / io.ErrUnexpectedEOF. Oracle: the harness parses the stream itself; a well-formed frame gets exactly one response of the right kind (SUCCESS / error text, marshalled slot replies, standard reply code, byte-identical forwarded reply) with the arguments recorded by the served agent; a malformed frame is answered or ends the connection with a non-nil error; responses in request order; nothing after the end; clean end => nil; nil => as many responses as complete frames; truncated length prefix or truncated body (including a stream that ends right after a length prefix) => error; oversize => error and < 8 MiB allocated. Non-trivial: >= 2 frames mixing well-formed and malformed, or a non-clean tail after >= 1 frame."
 
 func TestC12Stream(t *testing.T) {
 	vh.Run(t, vh.Spec[StreamCase]{Property: "C12", Name: "TestC12Stream", Rule: rule, Gen: genStream(false), Exec: exec})
